@@ -43,7 +43,11 @@ func getEnrichedPackage(logger *console.Logger, packagePath string, pkg PackageD
 		if packagePath == "." {
 			packagePath = ""
 		}
-		targetLabel := label.TargetLabel{Package: packagePath, Name: target.Name}
+		// Validate the name so that every label grog prints can be parsed back (e.g. by `grog deps`).
+		targetLabel, err := label.ParseTargetLabel(packagePath, ":"+target.Name)
+		if err != nil {
+			return nil, fmt.Errorf("invalid target name %q (package file %s): %w", target.Name, pkg.SourceFilePath, err)
+		}
 		if _, ok := targets[targetLabel]; ok {
 			return nil, fmt.Errorf("duplicate target label: %s (package file %s)", target.Name, pkg.SourceFilePath)
 		}
@@ -124,7 +128,10 @@ func getEnrichedPackage(logger *console.Logger, packagePath string, pkg PackageD
 		if packagePath == "." {
 			packagePath = ""
 		}
-		aliasLabel := label.TargetLabel{Package: packagePath, Name: alias.Name}
+		aliasLabel, err := label.ParseTargetLabel(packagePath, ":"+alias.Name)
+		if err != nil {
+			return nil, fmt.Errorf("invalid alias name %q (package file %s): %w", alias.Name, pkg.SourceFilePath, err)
+		}
 		if _, ok := targets[aliasLabel]; ok || aliases[aliasLabel] != nil {
 			return nil, fmt.Errorf("duplicate target label: %s (package file %s)", alias.Name, pkg.SourceFilePath)
 		}
